@@ -70,7 +70,10 @@ def run_check(repo, prop, only, tier="quick"):
     cmd = [os.path.join(ROOT, "vf"), "check", prop, "--tier", tier]
     for o in only or []:
         cmd += ["--only", o]
-    p = subprocess.run(cmd, env=env, capture_output=True, text=True, timeout=1800)
+    try:
+        p = subprocess.run(cmd, env=env, capture_output=True, text=True, timeout=2400)
+    except subprocess.TimeoutExpired as e:
+        return 124, "TIMEOUT of the whole check\n" + str(e.stdout or "")[-2000:]
     return p.returncode, p.stdout + p.stderr
 
 
